@@ -14,7 +14,8 @@
    steps that ignore t (evolve, evolve2d with rules ignoring t), and for the block engines - whose
    partition alternates with the parity of the call-local step number - for every split whose first
    part has an odd T1 (the continued call then starts on the partition the unsplit run would use).
-   For even T1 the law is false for the block engines: C05_block_split_even_counterexample. *)
+   For even T1 the law is false for the block engines: theorem C05_block_split_even_refuted (witness
+   shown by Example C05_block_split_even_counterexample); the odd-T1 theorems carry the suffix _partial. *)
 From CPL Require Import Model.Base Model.Rules Model.Engine Model.Evolve1D Model.Evolve2D Model.Block
      Proofs.EngineProofs Proofs.C05Proofs.
 From Coq Require Import Lia.
@@ -124,7 +125,15 @@ Theorem C05_evolve_split_parity :
   evolve_fixed dflt step x0 hist (T1 + T2 - 1) = Ok (x2, out2).
 Proof. intros X C. exact (evolve_split_parity X C). Qed.
 
-Theorem C05_evolve_block_split :
+(* FULL STATEMENT (the property's consequence clause read literally for evolve_block), NOT provable:
+     forall rule ignoring t, b, s0, hist, T1 >= 1, T2 >= 1,
+       evolve_block b s0 hist T1 = Ok (s1, out1) -> evolve_block b s1 out1 T2 = Ok (s2, out2) ->
+       evolve_block b s0 hist (T1 + T2 - 1) = Ok (s2, out2).
+   It is REFUTED for even T1 (C05_block_split_even_refuted below; open finding "block-split-even" on
+   /repo): the partition alternates with the call-local step number, so a continued call restarts on
+   the aligned partition.  What is proved is the part with the extra hypothesis `Nat.odd T1 = true`;
+   missing = every even T1. *)
+Theorem C05_evolve_block_split_partial :
   forall (St : Type) (rule : block_rule St) (store : Z -> Z),
   (forall s blk t t', rule s blk t = rule s blk t') ->
   forall b s0 (hist : list (list Z)) T1 T2 s1 out1 s2 out2,
@@ -134,7 +143,9 @@ Theorem C05_evolve_block_split :
   evolve_block rule store b s0 hist (T1 + T2 - 1) = Ok (s2, out2).
 Proof. exact evolve_block_split. Qed.
 
-Theorem C05_evolve2d_block_split :
+(* the same for evolve2d_block: full statement refuted for even T1 in the same way (the 2D partition
+   shifts by (1, 1) on even call-local steps); proved under `Nat.odd T1 = true` *)
+Theorem C05_evolve2d_block_split_partial :
   forall (St : Type) (rule : block_rule2 St) (store : Z -> Z),
   (forall s blk t t', rule s blk t = rule s blk t') ->
   forall b1 b2 s0 (hist : list grid2) T1 T2 s1 out1 s2 out2,
@@ -210,8 +221,8 @@ Print Assumptions C05_evolve_split.
 Print Assumptions C05_evolve_split_1d.
 Print Assumptions C05_evolve_split_2d.
 Print Assumptions C05_evolve_split_parity.
-Print Assumptions C05_evolve_block_split.
-Print Assumptions C05_evolve2d_block_split.
+Print Assumptions C05_evolve_block_split_partial.
+Print Assumptions C05_evolve2d_block_split_partial.
 
 (* ================================================================== every memoize mode (pure rules)
    The memoised engines are Model/Memo1D.v and Model/Memo2D.v (C03, C04).  For a pure rule every mode
@@ -295,3 +306,52 @@ Print Assumptions C05_all_modes_extends_1d.
 Print Assumptions C05_all_modes_split_1d.
 Print Assumptions C05_all_modes_extends_2d.
 Print Assumptions C05_all_modes_split_2d.
+
+(* ================================================================== additions after review
+   the consequence clause, read literally, is refuted on the block engines: pair reversal (a rule that
+   ignores t), b = 2, hist = [[1;2;3;4]], T1 = 2, T2 = 2: the two-call result differs from the single call *)
+Theorem C05_block_split_even_refuted :
+  exists (b : nat) (hist : list (list Z)) (T1 T2 : nat) s1 out1 s2 out2 s3 out3,
+    Nat.even T1 = true /\ 1 <= T2 /\
+    (forall s blk t t', spec_brule BRev s blk t = spec_brule BRev s blk t') /\
+    evolve_block (spec_brule BRev) id_store b 0 hist T1 = Ok (s1, out1) /\
+    evolve_block (spec_brule BRev) id_store b s1 out1 T2 = Ok (s2, out2) /\
+    evolve_block (spec_brule BRev) id_store b 0 hist (T1 + T2 - 1) = Ok (s3, out3) /\
+    out2 <> out3.
+Proof. exact block_split_even_refuted. Qed.
+
+(* the block engines keep the cell shape, whatever the block rule returns *)
+Theorem C05_evolve_block_shape :
+  forall (St : Type) (rule : block_rule St) (store : Z -> Z) b s0 (hist : list (list Z)) T s' out,
+  evolve_block rule store b s0 hist T = Ok (s', out) ->
+  exists rows, out = hist ++ rows /\ length rows = T - 1 /\
+    Forall (fun row => length row = length (last hist [])) rows.
+Proof. exact evolve_block_shape. Qed.
+
+(* ... and for evolve2d_block, with the dependence on the last grid only *)
+Theorem C05_evolve2d_block_shape :
+  forall (St : Type) (rule : block_rule2 St) (store : Z -> Z) b1 b2 s0 (hist : list grid2) T s' out R C,
+  evolve2d_block rule store b1 b2 s0 hist T = Ok (s', out) ->
+  length (last hist []) = R /\ Forall (fun row => length row = C) (last hist []) ->
+  exists rows, out = hist ++ rows /\ length rows = T - 1 /\
+    Forall (fun g => length g = R /\ Forall (fun row => length row = C) g) rows /\
+    (forall hist' : list grid2, hist' <> [] -> @last grid2 hist' [] = last hist [] ->
+       evolve2d_block rule store b1 b2 s0 hist' T = Ok (s', hist' ++ rows)).
+Proof. exact evolve2d_block_shape. Qed.
+
+(* the callable-timesteps form (any engine, any predicate): the result is the given rows followed by one
+   new row per consultation but the last; the new rows depend on the history through its last row only *)
+Theorem C05_evolve_dynamic_extends :
+  forall (X P C : Type) (dflt : C) (step : X -> C -> nat -> X * C) (pred : P -> list C -> nat -> P * bool)
+         fuel p0 x0 hist p x out plog,
+  hist <> [] ->
+  evolve_dynamic dflt step pred fuel p0 x0 hist = Some (p, x, out, plog) ->
+  exists rows, out = hist ++ rows /\ length rows = length plog - 1 /\ firstn (length hist) out = hist /\
+    (forall hist', hist' <> [] -> last hist' dflt = last hist dflt ->
+       evolve_dynamic dflt step pred fuel p0 x0 hist' = Some (p, x, hist' ++ rows, plog)).
+Proof. exact evolve_dynamic_extends. Qed.
+
+Print Assumptions C05_block_split_even_refuted.
+Print Assumptions C05_evolve_block_shape.
+Print Assumptions C05_evolve2d_block_shape.
+Print Assumptions C05_evolve_dynamic_extends.
